@@ -136,6 +136,28 @@ def applySeq {A U O : Type} (run : Kind → View σ → A → U → Except Strin
   | i, [] => i
   | i, (a, u) :: r => applySeq run k (apply run k i a u).1 r
 
+/-- `apply_location` called directly: no `__attrs_post_init__`; it reads whatever derived attributes the instance
+    carries (built at construction or by the last `apply`) and assigns nothing -/
+def applyLocation {A U O : Type} (runLoc : Kind → View σ → A → U → Except String O) (k : Kind) (i : Inst σ) (a : A) (u : U) :
+    Inst σ × Except String O :=
+  (i, runLoc k (view k i) a u)
+
+/-- one call on an instance, through either entry point -/
+inductive Call (A U : Type)
+  | apply (a : A) (u : U)
+  | applyLocation (a : A) (u : U)
+
+def runCall {A U O : Type} (run runLoc : Kind → View σ → A → U → Except String O) (k : Kind) (i : Inst σ) :
+    Call A U → Inst σ × Except String O
+  | .apply a u => apply run k i a u
+  | .applyLocation a u => applyLocation runLoc k i a u
+
+/-- the instance after a sequence of calls through both entry points -/
+def runSeq {A U O : Type} (run runLoc : Kind → View σ → A → U → Except String O) (k : Kind) :
+    Inst σ → List (Call A U) → Inst σ
+  | i, [] => i
+  | i, c :: r => runSeq run runLoc k (runCall run runLoc k i c).1 r
+
 /-- attribute assignment of the field `running_window_length` (validators passed) -/
 def setRwLen (i : Inst σ) (L : Int) : Inst σ := { i with settings := { i.settings with rwLen := L } }
 
